@@ -66,7 +66,10 @@ def compare_dec(gb, cfg, tname, proto, impl, model):
                 if gengen.show(gb.schema, ty, a) != gengen.show(gb.schema, ty, b):
                     return 'encoded bytes differ (beyond hash-container order)'
             except Exception:
-                return 'encoded bytes differ'
+                # messages with retained unknown fields do not decode under the reader schema: fall back to the
+                # multiset of bytes (insensitive to the iteration order of hash containers)
+                if sorted(impl.enc) != sorted(model['enc']):
+                    return 'encoded bytes differ'
     return None
 
 
